@@ -173,13 +173,16 @@ def _check_cloud(rec, dreye, name, P, family, seed, motions=True):
                 if not ok:
                     _v(rec, "c", dict(sig, api="compute_mean_width", what="closed-form"), "mean width %.6g differs from perimeter/pi = %.6g by more than the Monte-Carlo bound %.3g" % (w, mw_ref, hoeff), dict(case0, seed=sd), observed=w, expected=mw_ref)
     # reproducible per seed; loop variant == vectorised variant for the same n
-    rec.trans(2)
+    # (direction counts that are no multiple of any plausible block size included: 1, 7, 251, 300, 1375)
     try:
-        w1 = float(dreye.compute_mean_width(P, n=500, vectorized=True, seed=3))
-        w2 = float(dreye.compute_mean_width(P, n=500, vectorized=False, seed=3))
-        w3 = float(dreye.compute_mean_width(P, n=500, vectorized=True, seed=3))
-        if w1 != w3 or abs(w1 - w2) > 1e-12 * (1 + abs(w1)):
-            _v(rec, "c", dict(sig, api="compute_mean_width", what="deterministic"), "mean width is not deterministic per seed / differs between the loop and the vectorised variant", case0, observed=[w1, w2, w3])
+        for n_dir in (500, 1, 7, 251, 300, 1375):
+            rec.trans(2)
+            w1 = float(dreye.compute_mean_width(P, n=n_dir, vectorized=True, seed=3))
+            w2 = float(dreye.compute_mean_width(P, n=n_dir, vectorized=False, seed=3))
+            w3 = float(dreye.compute_mean_width(P, n=n_dir, vectorized=True, seed=3))
+            if w1 != w3 or abs(w1 - w2) > 1e-12 * (1 + abs(w1)):
+                _v(rec, "c", dict(sig, api="compute_mean_width", what="deterministic"), "mean width (n=%d directions) is not deterministic per seed / differs between the loop and the vectorised variant" % n_dir, dict(case0, n=n_dir), observed=[w1, w2, w3])
+                break
     except Exception as e:  # noqa
         _v(rec, "c", dict(sig, api="compute_mean_width", **exc_sig(e)), "compute_mean_width raised %r" % (e,), case0)
         return
